@@ -186,7 +186,7 @@ fn main() {
 	// regression cases first
 	let reg: Vec<Case> = check.regression_cases("histories");
 	check.enumerate("regressions", reg, false, oracle);
-	let n = check.cases(200_000, 3_000_000);
+	let n = check.cases(1_500_000, 12_000_000);
 	check.phase("histories", n, || strategy(max_ops), oracle);
 	check.finish();
 }
